@@ -37,7 +37,7 @@ def _lit_token(rng):
 
 class C09(Prop):
     id = "C09"
-    lean_modules = ["PkgProofs.Props.C09"]
+    lean_modules = ["PkgProofs.Props.C09", "PkgProofs.Props.C09Layout"]
     generated = ["MarkerTok"]
     theorems = ["C09.str_roundtrip_char", "C09.marker_roundtrip_char", "C09.constructed_marker_roundtrip", "MkWf.parse_wf", "MkLex.lex", "MkLexP.parse_spell_print",
                 "C09.str_is_spelled_tokens", "C09.format_parses_back", "C09.format_preserves_grouping",
@@ -46,7 +46,9 @@ class C09(Prop):
                 "C09.normalize_idem", "C09.eq_iff_same_str", "C09.eq_equivalence", "C09.hash_agrees",
                 "C09.same_tokens_same_eval", "C09.one_spelling_per_variable",
                 "C09.Old.old_format_loses_grouping", "C09.Old.old_quote_truncates", "C09.Old.old_extra_not_normalised",
-                "MkParse.parse_print", "MkFmt.fmtToksL_true", "MkFmt.fOfL_nfTop", "MkFmt.nfTop_idem"]
+                "MkParse.parse_print", "MkFmt.fmtToksL_true", "MkFmt.fOfL_nfTop", "MkFmt.nfTop_idem",
+                "C09.same_marker_of_same_parens", "C09.eq_hash_layout_independent", "C09.extra_spelling_layout_independent",
+                "C09.map_norm_extra", "C09.mkMarker_lex", "C09.flat_norm", "C09.nf_nfP", "C09.str_nfP", "C07.marker_parse_render_lex", "MkLay.parse_renderE"]
     rule = ("C07 formulas with literals over the full PEP 508 string alphabet (both quote characters, '#', ';', brackets), "
             "extra comparisons in every position and on either side, redundant parentheses to depth 4 (incl. doubled "
             "parentheses around compound operands), two independent spellings per formula (white space, quotes, outer "
@@ -56,7 +58,11 @@ class C09(Prop):
                "for the literals at hand are computed on the real code and passed as data",
                "ast.literal_eval of a QUOTED_STRING token as modelled by Mk.pyStrLit (escape decoding; \\N{...} not modelled)",
                "hash() as an uninterpreted function of (class name, str)"]
-    partial = ["the character-level round trip (str_roundtrip_char, marker_roundtrip_char) assumes canonical comparisons: "
+    partial = ["equality/hash of differently written markers is proved at character level (eq_hash_layout_independent, "
+               "extra_spelling_layout_independent) for any two layouts of one formula that differ in white space, quote style, "
+               "variable spelling, extra-name spelling and redundant parentheses (outer, around single comparisons, doubled); "
+               "literals with backslash/CR/LF/NUL/surrogates are outside these theorems",
+               "the character-level round trip (str_roundtrip_char, marker_roundtrip_char) assumes canonical comparisons: "
                "variables among the twelve canonical names (what process_env_var produces: one_spelling_per_variable), the ten "
                "operators, literals free of backslash/CR/LF/NUL/surrogates and not containing both quote characters; "
                "constructed_marker_roundtrip discharges the variable/operator part for every marker Marker() can construct "
